@@ -206,6 +206,66 @@ theorem C03_predictions_stable {α : Type} [Inhabited α] (f : Int → List Int 
   rw [getElem!_pos _ r1 l1', getElem!_pos _ r2 l2'] at htid
   rw [hsid, htid]
 
+/-! ### the property in one piece, the prepared screen included among the stages -/
+
+/-- every stage of a history, the prepared screen itself included, carries the prepared screen's tables, is a
+    constructed screen and has its ids read off those tables -/
+theorem stage_facts (p : Screen) (hp : Valid p) (ops : List Op) (tr : List Screen) (hrun : run step ops p = .ok tr)
+    (t : Screen) (ht : t ∈ p :: tr) :
+    t.tmap = p.tmap ∧ t.smap = p.smap ∧ t.arity = p.arity ∧ t.ctrl = p.ctrl ∧ EncodedBy p.tmap p.smap t ∧ Valid t := by
+  rcases List.mem_cons.1 ht with rfl | ht
+  · exact ⟨rfl, rfl, rfl, rfl, encodedBy_self _ hp, hp⟩
+  · obtain ⟨a, b, c, d, e⟩ := C03_history ops p tr hrun t ht
+    exact ⟨a, b, c, d, e, run_step_valid ops p tr hrun t ht⟩
+
+/-- C03, first sentence, as one statement: take ANY two stages of ANY two histories of reveal / mask / unmask /
+    save+load / hold-out steps from one prepared screen `p` (either may be `p` itself, one may be on the training
+    side and the other on the test side); rows with the same sample name have the same sample id, cells with the
+    same treatment name and dose have the same treatment id. -/
+theorem C03_ids_agree_across_histories (p : Screen) (hp : Valid p) (ops1 ops2 : List Op) (tr1 tr2 : List Screen)
+    (hrun1 : run step ops1 p = .ok tr1) (hrun2 : run step ops2 p = .ok tr2)
+    (t1 t2 : Screen) (ht1 : t1 ∈ p :: tr1) (ht2 : t2 ∈ p :: tr2) (r1 r2 : Nat) (hr1 : r1 < t1.size) (hr2 : r2 < t2.size) :
+    (t1.snames[r1]! = t2.snames[r2]! → t1.sids[r1]! = t2.sids[r2]!)
+    ∧ (∀ c1 c2, c1 < t1.arity → c2 < t2.arity →
+        (t1.tnames[r1]!)[c1]! = (t2.tnames[r2]!)[c2]! → (t1.tdoses[r1]!)[c1]! = (t2.tdoses[r2]!)[c2]! →
+        (t1.tids[r1]!)[c1]! = (t2.tids[r2]!)[c2]!) :=
+  C03_same_name_same_id p.tmap p.smap t1 t2 (stage_facts p hp ops1 tr1 hrun1 t1 ht1).2.2.2.2.1
+    (stage_facts p hp ops2 tr2 hrun2 t2 ht2).2.2.2.2.1 r1 r2 hr1 hr2
+
+/-- `C03_predictions_stable` with the prepared screen allowed as a stage (a model trained on the prepared screen and
+    evaluated on a later training or test stage, or the other way round). -/
+theorem C03_predictions_stable_incl_prepared {α : Type} [Inhabited α] (f : Int → List Int → α) (p : Screen) (hp : Valid p)
+    (ops1 ops2 : List Op) (tr1 tr2 : List Screen) (hrun1 : run step ops1 p = .ok tr1) (hrun2 : run step ops2 p = .ok tr2)
+    (t1 t2 : Screen) (ht1 : t1 ∈ p :: tr1) (ht2 : t2 ∈ p :: tr2) (r1 r2 : Nat) (hr1 : r1 < t1.size) (hr2 : r2 < t2.size)
+    (hs : t1.snames[r1]! = t2.snames[r2]!) (hn : t1.tnames[r1]! = t2.tnames[r2]!) (hd : t1.tdoses[r1]! = t2.tdoses[r2]!) :
+    (predictRows f t1)[r1]! = (predictRows f t2)[r2]! := by
+  obtain ⟨a1, b1, c1, _, e1, v1⟩ := stage_facts p hp ops1 tr1 hrun1 t1 ht1
+  obtain ⟨a2, b2, c2, _, e2, v2⟩ := stage_facts p hp ops2 tr2 hrun2 t2 ht2
+  have w1 := v1.wf
+  have w2 := v2.wf
+  have hsid := (C03_same_name_same_id p.tmap p.smap t1 t2 e1 e2 r1 r2 hr1 hr2).1 hs
+  have htid : t1.tids[r1]! = t2.tids[r2]! :=
+    tids_row_eq w1 w2 (a2.trans a1.symm) (c2.trans c1.symm) r1 r2 (by rw [← size_eq w1]; exact hr1)
+      (by rw [← size_eq w2]; exact hr2) hn hd
+  have l1 : r1 < t1.sids.length := by rw [w1.len_sids, ← size_eq w1]; exact hr1
+  have l2 : r2 < t2.sids.length := by rw [w2.len_sids, ← size_eq w2]; exact hr2
+  have l1' : r1 < t1.tids.length := by
+    obtain ⟨tf, _, _, htids⟩ := w1.tenc
+    rw [htids]; simp only [unflattenColumns, List.length_map, List.length_range]; rw [← size_eq w1]; exact hr1
+  have l2' : r2 < t2.tids.length := by
+    obtain ⟨tf, _, _, htids⟩ := w2.tenc
+    rw [htids]; simp only [unflattenColumns, List.length_map, List.length_range]; rw [← size_eq w2]; exact hr2
+  unfold predictRows
+  rw [getElem!_pos _ r1 (by simp [List.length_zipWith]; omega), getElem!_pos _ r2 (by simp [List.length_zipWith]; omega),
+    List.getElem_zipWith, List.getElem_zipWith]
+  rw [getElem!_pos _ r1 l1, getElem!_pos _ r2 l2] at hsid
+  rw [getElem!_pos _ r1 l1', getElem!_pos _ r2 l2'] at htid
+  rw [hsid, htid]
+
+/-- non-vacuity on the witness: the training half after `mask, reveal [0]` and the prepared screen itself are two
+    stages; sample `s1` (rows 0 of the training half and 1 of the prepared screen) has id 1 in both -/
+example : (witnessTrain.snames[0]! = witnessPrepared.snames[1]!) ∧ witnessTrain.sids[0]! = witnessPrepared.sids[1]! := by decide
+
 /-! ### regression: the constructors as they were before commit 141f07a -/
 
 /-- With the old constructors (`reveal_plates`, `mask_screen`, `unmask_screen` not handing the mappings over) the
